@@ -222,7 +222,10 @@ def _run(case, ctx, d, which):
         before = snapshot(src)
         if mon.fs:
             mon.fs.watch(src)
-        rr = call(c.convert, out, label=label, ampfactor=factor)
+        if case['seed'][-1] % 2:
+            rr = call(c.convert, out, False, label, factor)          # the documented positional order (out_path, force, label, ampfactor)
+        else:
+            rr = call(c.convert, out, label=label, ampfactor=factor)
         audit = mon.fs.stop() if mon.fs else []
         after = snapshot(src)
         if not rr.ok:
